@@ -144,6 +144,29 @@ let env_ (vs : sexp) (ss : sexp) : Concrete.env =
     Concrete.env_string = (fun k -> match find k stab with Some v -> v | None -> failwith "driver: env lacks a string key") }
 let strs = function L l -> Stdlib.List.map str l | _ -> failwith "driver: string list expected"
 
+(* ---- expressions ---- *)
+let vop_ = function
+  | A "eq" -> Expr.OEq | A "eqstar" -> Expr.OEqStar | A "exact" -> Expr.OExact | A "ne" -> Expr.ONe
+  | A "nestar" -> Expr.ONeStar | A "tilde" -> Expr.OTilde | A "lt" -> Expr.OLt | A "le" -> Expr.OLe
+  | A "gt" -> Expr.OGt | A "ge" -> Expr.OGe | _ -> failwith "driver: version operator expected"
+let sop_ = function
+  | A "eq" -> Expr.SEq | A "ne" -> Expr.SNe | A "gt" -> Expr.SGt | A "ge" -> Expr.SGe
+  | A "lt" -> Expr.SLt | A "le" -> Expr.SLe | _ -> failwith "driver: string operator expected"
+let rawver = function
+  | L [A "v"; e; rel; suf] -> (num e, (nlist rel, nlist suf))
+  | _ -> failwith "driver: raw version expected"
+let mexpr (x : sexp) : Expr.mexpr =
+  match x with
+  | L [A "ver"; k; op; rel] -> Expr.EVersion (num k, vop_ op, nlist rel)
+  | L [A "verin"; k; L vs; neg] -> Expr.EVersionIn (num k, Stdlib.List.map rawver vs, to_bool neg)
+  | L [A "str"; k; op; s] -> Expr.EString (num k, sop_ op, str s)
+  | L [A "in"; k; s; neg] -> Expr.EIn (num k, str s, to_bool neg)
+  | L [A "contains"; k; s; neg] -> Expr.EContains (num k, str s, to_bool neg)
+  | L [A "extra"; neg; arb; s] -> Expr.EExtra (to_bool neg, to_bool arb, str s)
+  | _ -> failwith "driver: expression expected"
+let srange ((d0, l) : Expr.range) : sexp =
+  L [bool_ d0; L (Stdlib.List.map (fun (c, b) -> L [scut c; bool_ b]) l)]
+
 (* ---- dispatch ---- *)
 let run (cmd : sexp) : sexp =
   match cmd with
@@ -168,6 +191,8 @@ let run (cmd : sexp) : sexp =
   | L [A "valcmp"; a; b] -> scmp (Concrete.m_val_cmp (value a) (value b))
   | L [A "varcmp"; a; b] -> scmp (Concrete.m_var_cmp (var_ a) (var_ b))
   | L [A "substring"; a; b] -> bool_ (Concrete.substring (str a) (str b))
+  | L [A "expr"; pv; pfv; e] -> stree (Expr.expression (num pv) (num pfv) (mexpr e))
+  | L [A "specrange"; op; rel] -> let op = vop_ op in srange (Expr.spec_range op (Expr.normalize_spec op (nlist rel)))
   | L [A "echo"; a] -> stree (tree a)
   | L (A op :: _) -> L [A "unknown-op"; A op]
   | _ -> failwith "driver: bad command"
